@@ -1,5 +1,4 @@
-import SdJwt.Lemmas.Kept
-import SdJwt.Lemmas.Strip
+import SdJwt.Lemmas.Conf
 /-!
 # C06 — undisclosed claims stay confidential in the issuer JWT and in presentations
 
@@ -14,152 +13,6 @@ every path below a redacted disclosure. Byte level (JSON text contains a string 
 does; base64 of it) is checked by the sentinel search on the real output, not proved.
 -/
 open Impl Spec Assoc
-
-/-- member names and string values of a JSON value, at any depth -/
-def J.strings : J → List String
-  | .str s => [s]
-  | .arr xs => stringsL xs
-  | .obj ms => stringsM ms
-  | _ => []
-where
-  stringsL : List J → List String
-    | [] => []
-    | x :: r => J.strings x ++ stringsL r
-  stringsM : List (String × J) → List String
-    | [] => []
-    | (k, v) :: r => k :: (J.strings v ++ stringsM r)
-
-mutual
-/-- the strings of `T` that lie outside every marked node (names of marked members excluded) -/
-def MJ.clearStrings : MJ → List String
-  | .leaf j => J.strings j
-  | .arr xs => xs.clearStrings
-  | .obj ms _ => ms.clearStrings
-def MElems.clearStrings : MElems → List String
-  | .nil => []
-  | .clear x r => x.clearStrings ++ r.clearStrings
-  | .marked _ _ r => r.clearStrings
-  | .decoy _ r => r.clearStrings
-def MMems.clearStrings : MMems → List String
-  | .nil => []
-  | .clear k x r => k :: (x.clearStrings ++ r.clearStrings)
-  | .marked _ _ _ r => r.clearStrings
-end
-
-theorem strings_ains (k : String) (v : J) : (l : List (String × J)) →
-    ∀ s ∈ J.strings.stringsM (ains k v l), s = k ∨ s ∈ J.strings v ∨ s ∈ J.strings.stringsM l
-  | [], s, h => by simpa [ains, J.strings.stringsM] using h
-  | (k', v') :: r, s, h => by
-    unfold ains at h
-    split at h
-    · simp [J.strings.stringsM] at h ⊢; grind
-    · split at h
-      · simp [J.strings.stringsM] at h ⊢; grind
-      · simp [J.strings.stringsM] at h ⊢
-        rcases h with h | h | h
-        · grind
-        · grind
-        · have := strings_ains k v r s h; grind
-
-theorem strings_strs (ds : List String) : J.strings.stringsL (ds.map .str) = ds := by
-  induction ds with
-  | nil => rfl
-  | cons d r ih => simp [J.strings.stringsL, J.strings, ih]
-
-mutual
-theorem MJ.payload_strings : (T : MJ) → ∀ s ∈ J.strings (T.hview (fun _ => false)),
-    s ∈ T.clearStrings ∨ s ∈ T.digests ∨ s = "_sd" ∨ s = "..."
-  | .leaf j, s, h => by left; simpa [MJ.hview, MJ.clearStrings] using h
-  | .arr xs, s, h => by
-    simp only [MJ.hview, J.strings] at h
-    simpa [MJ.clearStrings, MJ.digests] using MElems.payload_strings xs s h
-  | .obj ms sd, s, h => by
-    simp only [MJ.hview, J.strings] at h
-    cases sd with
-    | none =>
-      simp only [withSd] at h
-      rcases MMems.payload_strings ms s h with h | h | h | h
-      · left; simpa [MJ.clearStrings] using h
-      · right; left; simp [MJ.digests, h]
-      · grind
-      · grind
-    | some ds =>
-      simp only [withSd] at h
-      rcases strings_ains _ _ _ s h with h | h | h
-      · grind
-      · right; left
-        simp only [J.strings, strings_strs] at h
-        simp [MJ.digests, h]
-      · rcases MMems.payload_strings ms s h with h | h | h | h
-        · left; simpa [MJ.clearStrings] using h
-        · right; left; simp [MJ.digests, h]
-        · grind
-        · grind
-theorem MElems.payload_strings : (xs : MElems) → ∀ s ∈ J.strings.stringsL (xs.hview (fun _ => false)),
-    s ∈ xs.clearStrings ∨ s ∈ xs.digests ∨ s = "_sd" ∨ s = "..."
-  | .nil, s, h => by simp [MElems.hview, J.strings.stringsL] at h
-  | .clear x r, s, h => by
-    simp only [MElems.hview, J.strings.stringsL, List.mem_append] at h
-    rcases h with h | h
-    · rcases MJ.payload_strings x s h with h | h | h | h
-      · left; simp [MElems.clearStrings, h]
-      · right; left; simp [MElems.digests, h]
-      · grind
-      · grind
-    · rcases MElems.payload_strings r s h with h | h | h | h
-      · left; simp [MElems.clearStrings, h]
-      · right; left; simp [MElems.digests, h]
-      · grind
-      · grind
-  | .marked g x r, s, h => by
-    simp only [MElems.hview, Bool.false_eq_true, if_false, J.strings.stringsL, List.mem_append] at h
-    rcases h with h | h
-    · simp [placeholder, J.strings, J.strings.stringsM] at h
-      rcases h with h | h
-      · grind
-      · right; left; simp [MElems.digests, h]
-    · rcases MElems.payload_strings r s h with h | h | h | h
-      · left; simp [MElems.clearStrings, h]
-      · right; left; simp [MElems.digests, h]
-      · grind
-      · grind
-  | .decoy g r, s, h => by
-    simp only [MElems.hview, J.strings.stringsL, List.mem_append] at h
-    rcases h with h | h
-    · simp [placeholder, J.strings, J.strings.stringsM] at h
-      rcases h with h | h
-      · grind
-      · right; left; simp [MElems.digests, h]
-    · rcases MElems.payload_strings r s h with h | h | h | h
-      · left; simp [MElems.clearStrings, h]
-      · right; left; simp [MElems.digests, h]
-      · grind
-      · grind
-theorem MMems.payload_strings : (ms : MMems) → ∀ s ∈ J.strings.stringsM (ms.hview (fun _ => false)),
-    s ∈ ms.clearStrings ∨ s ∈ ms.digests ∨ s = "_sd" ∨ s = "..."
-  | .nil, s, h => by simp [MMems.hview, J.strings.stringsM] at h
-  | .clear k x r, s, h => by
-    simp only [MMems.hview, J.strings.stringsM, List.mem_cons, List.mem_append] at h
-    rcases h with h | h | h
-    · left; simp [MMems.clearStrings, h]
-    · rcases MJ.payload_strings x s h with h | h | h | h
-      · left; simp [MMems.clearStrings, h]
-      · right; left; simp [MMems.digests, h]
-      · grind
-      · grind
-    · rcases MMems.payload_strings r s h with h | h | h | h
-      · left; simp [MMems.clearStrings, h]
-      · right; left; simp [MMems.digests, h]
-      · grind
-      · grind
-  | .marked k g x r, s, h => by
-    simp only [MMems.hview, Bool.false_eq_true, if_false] at h
-    rcases MMems.payload_strings r s h with h | h | h | h
-    · left; simp [MMems.clearStrings, h]
-    · right; left; simp [MMems.digests, h]
-    · grind
-    · grind
-end
 
 /-- **Confidentiality of the payload.** A string that occurs in the signed payload occurs in the
 claims outside every disclosable node, or is a digest, or is the bookkeeping name `_sd` / `...`.
